@@ -267,6 +267,17 @@ func genEcdhOps(r *rand.Rand, n int) []string {
 			ot := odd.tokens(r, 1, kidA)
 			out = append(out, "ecdh.topublic "+ot, "ecdh.compress "+ot, fmt.Sprintf("ecdh.derive %s | %s | same", ot, b.tokens(r, 2, kidA)))
 		}
+		if i%11 == 6 { // remote (and local) keys naming a curve this package has no arithmetic for, every registered id and some beyond
+			oc := []int{5, 6, 7, 8, 0, 9, -1, 256, 2147483647}[(i/11)%9]
+			kty := "int:1"
+			if oc == 1 || oc == 2 || oc == 3 || oc == 8 || oc > 8 || oc <= 0 {
+				kty = "int:2"
+			}
+			foreign := fmt.Sprintf("{ int:1 %s int:-1 int:%d int:-2 b:%s }", kty, oc, hx(randBytes(r, 32)))
+			foreignPriv := fmt.Sprintf("{ int:1 %s int:-1 int:%d int:-4 b:%s }", kty, oc, hx(randBytes(r, 32)))
+			out = append(out, fmt.Sprintf("ecdh.derive %s | %s | same", local, foreign), "ecdh.topublic "+foreignPriv, "ecdh.topublic "+foreign,
+				fmt.Sprintf("ecdh.derive %s | %s | same", foreignPriv, remote))
+		}
 		after := "same"
 		if r.Intn(8) == 0 {
 			after = genOpsValue(r)
